@@ -1,4 +1,5 @@
 import Vgi.Model.ScriptUnary
+import Vgi.Drive.ScriptParse
 /-!
 Line-protocol driver for C04.
 
@@ -9,14 +10,7 @@ Line-protocol driver for C04.
 Byte strings are `x<hex>`. Answer: `<schema> ; <batch> ; <batch> …` (see `showStream`).
 -/
 namespace Vgi.Drive.C04
-open Vgi Vgi.Script
-
-def showKVs (kvs : KVs) : String :=
-  if kvs.isEmpty then "-" else ",".intercalate (kvs.map fun kv => hexOfBytes kv.1 ++ "=" ++ hexOfBytes kv.2)
-
-def showRid : Option Bytes → String
-  | none => "-"
-  | some r => hexArg r
+open Vgi Vgi.Script Vgi.Drive.ScriptParse
 
 def showBatch : Batch → String
   | .log l m e r => s!"log {hexArg l} {hexArg m} {showKVs e} {showRid r}"
@@ -26,10 +20,6 @@ def showBatch : Batch → String
 
 def showStream (s : IpcStream) : String :=
   " ; ".intercalate (s.schema :: s.batches.map showBatch)
-
-def isInfix (p : Bytes) : Bytes → Bool
-  | [] => p.isEmpty
-  | b :: r => p.isPrefixOf (b :: r) || isInfix p r
 
 /-- For a panicking handler the wording around the panic value is the framework's own and not
 part of C04: the terminal exception batch is shown as "does the message report the value". -/
@@ -43,52 +33,6 @@ def showResponse (o : Outcome) (s : IpcStream) : String :=
   let n := s.batches.length
   " ; ".intercalate (s.schema :: (s.batches.zipIdx.map fun (b, i) => showBatchFor o (i + 1 == n) b))
 
-/-- Token-stream parsers: `some (value, rest)` or `none`. -/
-def pBytes : List String → Option (Bytes × List String)
-  | w :: r => (parseHexArg w).map (·, r)
-  | [] => none
-
-def pKVs : Nat → List String → Option (KVs × List String)
-  | 0, ws => some ([], ws)
-  | n + 1, ws => do
-    let (k, ws) ← pBytes ws
-    let (v, ws) ← pBytes ws
-    let (r, ws) ← pKVs n ws
-    pure ((k, v) :: r, ws)
-
-def pNat : List String → Option (Nat × List String)
-  | w :: r => w.toNat?.map (·, r)
-  | [] => none
-
-def pLogCall (ws : List String) : Option (LogCall × List String) := do
-  let (l, ws) ← pBytes ws
-  let (m, ws) ← pBytes ws
-  let (k, ws) ← pNat ws
-  let (e, ws) ← pKVs k ws
-  pure ({ level := l, msg := m, extras := e }, ws)
-
-def pLogCalls : Nat → List String → Option (List LogCall × List String)
-  | 0, ws => some ([], ws)
-  | n + 1, ws => do
-    let (c, ws) ← pLogCall ws
-    let (r, ws) ← pLogCalls n ws
-    pure (c :: r, ws)
-
-def pErrVal : List String → Option (ErrVal × List String)
-  | "rpc" :: t :: m :: r => do
-    let t ← parseHexArg t
-    let m ← parseHexArg m
-    pure (.rpc t m, r)
-  | "plain" :: m :: r => (parseHexArg m).map fun m => (.plain m, r)
-  | "wrap" :: m :: r => (parseHexArg m).map fun m => (.wrapped m, r)
-  | _ => none
-
-def pPanicVal : List String → Option (PanicVal × List String)
-  | "str" :: s :: r => (parseHexArg s).map fun s => (.str s, r)
-  | "err" :: s :: r => (parseHexArg s).map fun s => (.err s, r)
-  | "int" :: n :: r => n.toInt?.map fun n => (.int n, r)
-  | _ => none
-
 def pOutcome : List String → Option (Outcome × List String)
   | "ret" :: v :: r => some (.ret v, r)
   | "err" :: r => (pErrVal r).map fun (e, r) => (.fail e, r)
@@ -98,11 +42,6 @@ def pOutcome : List String → Option (Outcome × List String)
 def pTransport : String → Option Transport
   | "pipe" => some .pipe
   | "http" => some .http
-  | _ => none
-
-def pBool : String → Option Bool
-  | "0" => some false
-  | "1" => some true
   | _ => none
 
 def parseCall (ws : List String) : Option (Transport × UMethod × Bytes × Bytes × UnaryScript) :=
